@@ -129,8 +129,8 @@ theorem trans_live {c : Cfg} {s : State} {i : Nat} {sl : Slot} (hi : s.slots[i]?
     (hk : (op = .lock ∧ k = .lock) ∨ (op = .unlock ∧ k = .unlock) ∨ (op = .ro ∧ k = .ro) ∨
       (op = .rw ∧ k = .rw) ∨ (op = .na ∧ k = .na))
     (hperm : TypeState.permits pm lm ct op = true) :
-    ∃ m', step c s ⟨k, i⟩ = (.ok, setSlot (resetRel s) m' i
-        { sl with o := ⟨stOf (TypeState.next pm lm op).1 (TypeState.next pm lm op).2, sl.o.v⟩ }) ∨
+    ∃ m' rc', step c s ⟨k, i⟩ = (.ok, setSlot (resetRel s) m' i
+        { sl with o := ⟨stOf (TypeState.next pm lm op).1 (TypeState.next pm lm op).2, sl.o.v, rc'⟩ }) ∨
       (op = .lock ∧ step c s ⟨k, i⟩ = (.err, setSlot (resetRel s) m' i { sl with gone := true })) := by
   have hi' : (resetRel s).slots[i]? = some sl := hi
   rcases hk with ⟨rfl, rfl⟩ | ⟨rfl, rfl⟩ | ⟨rfl, rfl⟩ | ⟨rfl, rfl⟩ | ⟨rfl, rfl⟩
@@ -143,8 +143,8 @@ theorem trans_live {c : Cfg} {s : State} {i : Nat} {sl : Slot} (hi : s.slots[i]?
     rw [withLive_eq hi' hg, hst]
     simp only [stOf, convLM]
     unfold doLock
-    refine ⟨(lockV c (resetRel s).m sl.o.v (convPM pm)).1, ?_⟩
-    by_cases hr : (lockV c (resetRel s).m sl.o.v (convPM pm)).2 = true
+    refine ⟨(lockV c (resetRel s).m sl.o.v sl.o.rcd).1, (.locked, sl.o.rcd.2), ?_⟩
+    by_cases hr : (lockV c (resetRel s).m sl.o.v sl.o.rcd).2 = true
     · left; simp only [hr, if_true]; rfl
     · right; simp only [hr]; exact ⟨trivial, rfl⟩
   · -- unlock
@@ -152,19 +152,19 @@ theorem trans_live {c : Cfg} {s : State} {i : Nat} {sl : Slot} (hi : s.slots[i]?
     rw [hstep]
     unfold opUnlock
     rw [withLive_eq hi' hg, hst]
-    exact ⟨_, Or.inl rfl⟩
+    exact ⟨_, _, Or.inl rfl⟩
   · -- ro
     have hstep : step c s ⟨.ro, i⟩ = opProtect c (resetRel s) i .ro := rfl
     rw [hstep]
     unfold opProtect
     rw [withLive_eq hi' hg, hst]
-    exact ⟨_, Or.inl rfl⟩
+    exact ⟨_, _, Or.inl rfl⟩
   · -- rw
     have hstep : step c s ⟨.rw, i⟩ = opProtect c (resetRel s) i .rw := rfl
     rw [hstep]
     unfold opProtect
     rw [withLive_eq hi' hg, hst]
-    exact ⟨_, Or.inl rfl⟩
+    exact ⟨_, _, Or.inl rfl⟩
   · -- na
     have hl : lm = .unlocked := by cases lm <;> simp_all [TypeState.permits]
     subst hl
@@ -172,7 +172,7 @@ theorem trans_live {c : Cfg} {s : State} {i : Nat} {sl : Slot} (hi : s.slots[i]?
     rw [hstep]
     unfold opNa
     rw [withLive_eq hi' hg, hst]
-    exact ⟨_, Or.inl rfl⟩
+    exact ⟨_, _, Or.inl rfl⟩
 
 /-- a transition the table does NOT offer answers `n/a` in the model as well (there is no such
 method on that type): `lock` and `na` on a locked region -/
@@ -203,7 +203,7 @@ theorem rprobe_step {c : Cfg} (hP : 0 < c.P) {s : State} (h : Inv c s) {i : Nat}
     (hst : sl.o.st = stOf pm lm) {off : Nat} (hoff : off < sl.o.v.len)
     (hal : TypeState.allowed pm .read = true) : step c s ⟨.rprobe off, i⟩ = (.ok, resetRel s) := by
   have hp := (allowed_read_iff pm).mp hal
-  rw [step_rprobe, opRProbe_eq hP (s := resetRel s) h hi hg hoff, hst, stPerm_stOf]
+  rw [step_rprobe, opRProbe_eq hP (s := resetRel s) h.resetRel hi hg hoff, hst, stPerm_stOf]
   simp [hp]
 
 theorem wprobe_step {c : Cfg} (hP : 0 < c.P) {s : State} (h : Inv c s) {i : Nat} {sl : Slot}
@@ -211,7 +211,7 @@ theorem wprobe_step {c : Cfg} (hP : 0 < c.P) {s : State} (h : Inv c s) {i : Nat}
     (hst : sl.o.st = stOf pm lm) {off : Nat} (hoff : off < sl.o.v.len)
     (hal : TypeState.allowed pm .write = true) : step c s ⟨.wprobe off, i⟩ = (.ok, resetRel s) := by
   have hp := (allowed_write_iff pm).mp hal
-  rw [step_wprobe, opWProbe_eq hP (s := resetRel s) h hi hg hoff, hst, stPerm_stOf]
+  rw [step_wprobe, opWProbe_eq hP (s := resetRel s) h.resetRel hi hg hoff, hst, stPerm_stOf]
   simp [hp]
 
 /-- **one step of a well-typed program**: if the table offers `op` in state `(pm, lm)`, the token
@@ -223,7 +223,11 @@ theorem step_no_segv {c : Cfg} (hP : 0 < c.P) {s : State} {i off : Nat} {pm : Ty
     (step c s t).1 ≠ .segv ∧
     SlotIn c (step c s t).2 i off (TypeState.next pm lm op).1 (TypeState.next pm lm op).2 := by
   obtain ⟨hinv, sl, hi, hcase⟩ := hin
-  have hinv' := inv_step hP hinv t
+  have hnz : ¬ ZeroizesProtected s t := by
+    intro hh
+    have h1 := hh.1
+    cases op <;> simp only [tokOf, Option.some.injEq, reduceCtorEq] at ht <;> subst ht <;> simp at h1
+  have hinv' := inv_step hP hinv t hnz
   by_cases hg : sl.gone = true
   · rw [tok_gone hi hg op t ht] at hinv' ⊢
     exact ⟨by simp, hinv', sl, hi, Or.inl hg⟩
@@ -238,21 +242,21 @@ theorem step_no_segv {c : Cfg} (hP : 0 < c.P) {s : State} {i off : Nat} {pm : Ty
     intro ha hn htt
     rw [ha] at hal
     rw [htt, rprobe_step hP hinv hi hg' hst hoff hal, hn]
-    exact ⟨by simp, hinv, sl, hi, Or.inr ⟨hst, hoff⟩⟩
+    exact ⟨by simp, hinv.resetRel, sl, hi, Or.inr ⟨hst, hoff⟩⟩
   have wr : TypeState.access op = .write → TypeState.next pm lm op = (pm, lm) → t = ⟨.wprobe off, i⟩ →
       (step c s t).1 ≠ .segv ∧
       SlotIn c (step c s t).2 i off (TypeState.next pm lm op).1 (TypeState.next pm lm op).2 := by
     intro ha hn htt
     rw [ha] at hal
     rw [htt, wprobe_step hP hinv hi hg' hst hoff hal, hn]
-    exact ⟨by simp, hinv, sl, hi, Or.inr ⟨hst, hoff⟩⟩
+    exact ⟨by simp, hinv.resetRel, sl, hi, Or.inr ⟨hst, hoff⟩⟩
   have tr : ∀ k : Protected.Op, ((op = .lock ∧ k = .lock) ∨ (op = .unlock ∧ k = .unlock) ∨ (op = .ro ∧ k = .ro) ∨
       (op = .rw ∧ k = .rw) ∨ (op = .na ∧ k = .na)) → t = ⟨k, i⟩ →
       (step c s t).1 ≠ .segv ∧
       SlotIn c (step c s t).2 i off (TypeState.next pm lm op).1 (TypeState.next pm lm op).2 := by
     intro k hk htt
     subst htt
-    obtain ⟨m', h1 | ⟨_, h1⟩⟩ := trans_live (c := c) hi hg' ct hst op k hk hperm
+    obtain ⟨m', rc', h1 | ⟨_, h1⟩⟩ := trans_live (c := c) hi hg' ct hst op k hk hperm
     · rw [h1] at hinv' ⊢
       exact ⟨by simp, hinv', _, setSlot_get hi' _ _, Or.inr ⟨rfl, hoff⟩⟩
     · rw [h1] at hinv' ⊢
